@@ -84,6 +84,21 @@ func errCheckedAndReturned(call *ssa.Call, idx int) (bool, string) {
 							leg = iff.Block().Succs[1]
 						}
 						if blockReturnsError(leg, 0) {
+							// ... and nothing can leave the function successfully before that test
+							bad := pathToReturn(call, func(ret *ssa.Return) bool {
+								if len(ret.Results) == 0 {
+									return true
+								}
+								for _, x := range expandValues(ret.Results[len(ret.Results)-1]) {
+									if isNilConst(x) {
+										return true
+									}
+								}
+								return false
+							}, func(in ssa.Instruction) bool { return in == ssa.Instruction(iff) })
+							if bad != nil {
+								return false, "a success return is reachable from the call without passing the test of its error"
+							}
 							return true, "tested; the non-nil leg returns an error"
 						}
 						return false, "tested, but the non-nil leg does not return an error"
